@@ -164,7 +164,11 @@ struct Extractor {
         std::string n;
         llvm::raw_string_ostream s(n);
         a.getAsDecl()->printQualifiedName(s, PP);
-        O << "{\"d\":" << S.get(s.str()) << '}';
+        O << "{\"d\":" << S.get(s.str());
+        // a function template specialisation used as a non-type argument: its own template arguments
+        if (auto *FD = dyn_cast<FunctionDecl>(a.getAsDecl()))
+          if (auto *TA = FD->getTemplateSpecializationArgs()) { O << ",\"da\":"; targList(O, TA->asArray()); }
+        O << '}';
         break;
       }
       case TemplateArgument::Template:
